@@ -421,4 +421,18 @@ def gateCell (k : Nat) : Nat :=
 
 def modelGateTable : List Nat := (List.range 20).map gateCell
 
+/-- Wide table: a flush/finish (actions 1..4) is started with avail_in = 2^32 + 5 on a coder that consumes nothing
+    and produces one byte per call; then avail_in = 5 (reduced by exactly 2^32: must be rejected), 2^32 + 5 again
+    (accepted), 2^32 + 4 (rejected). Cell = returned ret * 2 + (inner called); same order as harness/gen_c11.c. -/
+def wideCells (action : Nat) : List Nat :=
+  let i : Internal := { hasCode := true, sequence := .run, availIn := 0, supported := 31, allowBufError := false }
+  let s0 : Stream := { nextIn := some 1000, availIn := 0, totalIn := 0, nextOut := some 2000, availOut := 16,
+                       totalOut := 0, reserved := {}, internal := some i }
+  let mk (ain : Nat) : Call := { action := action, nextIn := some 1000, availIn := ain, nextOut := some 2000,
+                                 availOut := 16, code := fun a => ⟨0, min 1 a.outSize, LZMA_OK⟩ }
+  (trace s0 [mk (2 ^ 32 + 5), mk 5, mk (2 ^ 32 + 5), mk (2 ^ 32 + 4)]).map fun e =>
+    e.result.ret * 2 + (if e.result.called.isSome then 1 else 0)
+
+def modelWideTable : List Nat := wideCells 1 ++ wideCells 2 ++ wideCells 3 ++ wideCells 4
+
 end XzVerif.LzmaCode
